@@ -22,13 +22,30 @@ Everything that needs induction is a lemma pair (base, step) below; contracts as
 lemmas only (each use names its lemma).  Leaf contracts (numpy / autoray) are pure definitions of the leaf
 (np.sum of a mask is its count, cumsum is the prefix sum, ...) and are listed in TRUSTED of the index entry.
 
+Array pre-conditions (non-negative, sorted descending) are named predicates all_nonneg / sorted_desc whose quantified
+meaning is used through instances only, so every query is quantifier-free (failed obligations come with models and
+are decided in milliseconds; with quantified assumptions z3 answered `unknown` on the obligations that must fail).
+
 Ties.  DESIGN C05: a discarded tail exactly equal to the target is left unconstrained, so the sum-mode rule is
 proved in the form   (tail(r) <= target  or  r = n and target < 0)  and  (r > 1 => tail(r-1) >= target).
 The clause "r = n and target < 0" is the case where no k satisfies the rule (negative cutoff, passed by the trim
 functions when only renorm > 0 asks for the dynamic branch): nothing is discarded.
 
+Relational obligation generic == accelerated.  Both trim functions are proved against the SAME functional specification
+(``TrimBase.trim_post``, same labels, same cases for the renorm power); the lemmas ``relational-*`` show that this
+specification determines the kept number up to ties and the renormalisation factor (and, given the kept number, the
+error) uniquely.  On the unchanged tree the generic function does NOT satisfy it (DESIGN finding 6a): label
+``renorm-factor`` fails in every case [mode=M,renorm=R] whose R differs from the power of M, and the abs / rel cases
+with R > 0 end in ``raise@..:no-raise-UnboundLocalError``.  selftest/mutants_c05.py contains a corrected generic
+implementation that discharges every case.
+
+Engine extensions used (vf/pyvc.py, additive): ``__cmp__`` hook for ordering comparisons of non-scalars (``s > cutoff``
+gives a mask object), a single non-scalar comparison result is returned as is, starred assignment targets
+(``*batch_dims, d = ...``).  Slices inside subscript tuples arrive as ('slice', lo, hi, step) or as python ``slice``
+objects depending on which of the two ``ev_Slice`` definitions in the engine is in force: both are accepted.
+
 Part 2 (fdx): ``provider`` executes the real parse_method_absorb / parse_split_opts /
-parse_split_left_right_isom on their complete finite domains (see its docstring).
+parse_split_left_right_isom on their complete finite domains (see the comment block of Part 2).
 """
 
 import ast
@@ -72,6 +89,22 @@ NONE_V = z3.Const("None!v", V)
 MODE_NAMES = ("abs", "rel", "sum2", "rsum2", "sum1", "rsum1")
 SUM_MODES = ("sum2", "rsum2", "sum1", "rsum1")
 REL_SUM_MODES = ("rsum2", "rsum1")
+
+
+def memo_terms(f):
+    """cache a pure formula builder on the identity of its (hash-consed) z3 arguments: z3py term construction dominates
+    the generation time, and the same instances are rebuilt on every path"""
+    cache = {}
+
+    def g(*args):
+        key = tuple(("z", a.get_id()) if is_z3(a) else ("p", type(a).__name__, a) for a in args)
+        hit = cache.get(key)
+        if hit is None:
+            hit = cache[key] = (args, f(*args))  # the arguments are kept alive, so the ids stay unique
+        return hit[1]
+
+    g.__name__, g.__doc__ = f.__name__, f.__doc__
+    return g
 
 
 def mode_power(name):
@@ -141,16 +174,19 @@ def pw_facts(x, p):
     return And(Implies(x >= 0, t >= 0), Implies(x > 0, t > 0))
 
 
+@memo_terms
 def rsqrt_def(x):
     return And(Implies(x >= 0, And(rsqrt(x) >= 0, rsqrt(x) * rsqrt(x) == x)), rsqrt(z3.RealVal(0)) == 0)
 
 
+@memo_terms
 def def_presum(A, p, k):
     """definition of presum at k"""
     return And(presum(A, pR(p), 0) == 0,
                Implies(Z(k) >= 0, And(presum(A, pR(p), k + 1) == presum(A, pR(p), k) + epw(A[k], p), pw_facts(A[k], p))))
 
 
+@memo_terms
 def def_tail(A, p, n, k):
     """definition of tailsum at k"""
     return And(tailsum(A, pR(p), n, n) == 0,
@@ -183,6 +219,7 @@ def inst_sorted(A, n, i, j):
     return Implies(And(sorted_desc(A, n), Z(i) >= 0, Z(i) <= j, Z(j) < n), A[i] >= A[j])
 
 
+@memo_terms
 def inst_array_pre(A, n, i):
     return And(inst_nonneg(A, n, i), inst_sorted(A, n, 0, i), inst_sorted(A, n, i, i + 1))
 
@@ -190,26 +227,31 @@ def inst_array_pre(A, n, i):
 # ---- instances of proved lemmas (each function names its lemma) ------------------------------------------------
 
 
+@memo_terms
 def lem_split(A, p, n, k):
     """lemma split-sum:  0 <= k <= n  =>  presum(k) + tail(k) == presum(n)"""
     return Implies(And(Z(k) >= 0, Z(k) <= n), presum(A, pR(p), k) + tailsum(A, pR(p), n, k) == presum(A, pR(p), n))
 
 
+@memo_terms
 def lem_tail_mono(A, p, n, j, k):
     """lemma tail-monotone (needs A >= 0 on [0,n)):  0 <= j <= k <= n  =>  tail(j) >= tail(k)"""
     return Implies(And(all_nonneg(A, n), Z(j) >= 0, Z(j) <= k, Z(k) <= n), tailsum(A, pR(p), n, j) >= tailsum(A, pR(p), n, k))
 
 
+@memo_terms
 def lem_tail_nonneg(A, p, n, k):
     """lemma tail-monotone with k = n: tail(j) >= tail(n) = 0"""
     return Implies(And(all_nonneg(A, n), Z(k) >= 0, Z(k) <= n), tailsum(A, pR(p), n, k) >= 0)
 
 
+@memo_terms
 def lem_presum_mono(A, p, n, j, k):
     """lemma presum-monotone (needs A >= 0 on [0,n)):  0 <= j <= k <= n  =>  presum(j) <= presum(k)"""
     return Implies(And(all_nonneg(A, n), Z(j) >= 0, Z(j) <= k, Z(k) <= n), presum(A, pR(p), j) <= presum(A, pR(p), k))
 
 
+@memo_terms
 def lem_count_boundary(A, thr, n, j):
     """lemma count-boundary at m(i) := A_i > thr (monotone because A is sorted descending):
     c = count_gt(A,thr,n):  0 <= c <= n,  j < c => A_j > thr,  c <= j < n => A_j <= thr"""
@@ -1130,8 +1172,7 @@ class TrimBase(NumModel):
         capped = And(mb > 0, N == mb)
         # ---- instances of the pre-condition, of definitions and of proved lemmas at the indices the clauses mention
         sum_powers = sorted({mode_power(m) for m in SUM_MODES if mode_is(mode, m) is not False})
-        for k in (N - 1, N):
-            cx.assume(self.pre_instance(a, k))
+        cx.assume(self.pre_instance(a, N))
         for name in ("abs", "rel"):
             if mode_is(mode, name) is not False:  # lemma count-boundary (premise: sorted): 0 <= count <= n
                 cx.assume(Implies(mode_is(mode, name), lem_count_boundary(SA, rule_threshold(SA, cutoff, name), n, 0)))
@@ -1139,6 +1180,11 @@ class TrimBase(NumModel):
             for k in (N, N - 1):
                 cx.assume(lem_split(SA, p, n, k))  # lemma split-sum
             cx.assume(lem_tail_nonneg(SA, p, n, N))  # lemma tail-monotone
+        if not (isinstance(renorm, int) and renorm == 0):
+            # sums of renorm-th powers are positive: definition at 0 (A_0 > 0) + lemma presum-monotone
+            cx.assume(def_presum(SA, renorm, 0))
+            for k in (N, n):
+                cx.assume(lem_presum_mono(SA, renorm, n, 1, k))
         cum = cx.ghost.get("cum")
         if cum is not None:
             for k in (N, N - 1):
@@ -1344,3 +1390,408 @@ def _replay_trim(fname, model):
                     bad.append(dict(call=call, observed=dict(kept=np.asarray(ks).tolist(), error=float(err)),
                                     expected=dict(kept=exp.tolist(), error=e_exp)))
     return dict(call=bad[0]["call"] if bad else f"{fname} over a small grid", observed=bad[:4], reproduced=bool(bad))
+
+
+# ==============================================================================================================
+# Part 2 -- fdx: the option parsers, executed on their complete finite domains
+# ==============================================================================================================
+#
+# Domain: every method spelling accepted by the API (the registered drivers of _SPLIT_FNS plus 'auto', the deprecated
+# alias 'eig' and the 'lq' / 'lq:cholesky' spellings that parse_method_absorb rewrites) x every absorb alias (all
+# keys of _ABSORB_MAP -- strings, numeric codes, None -- plus 'auto') x the truncation flag.  Obligations:
+#   total        parse_method_absorb / parse_split_opts: each combination raises a quimb ValueError or yields a registered
+#                method, an absorb code of the table and options that bind to the driver's signature
+#   isometry     parse_split_left_right_isom: a factor flagged isometric for (method, absorb) is an isometry when the
+#                real driver is run through array_split on fixed full-rank matrices (tall, wide, square; float64,
+#                complex128), measured as min(|F^H F - 1|, |F F^H - 1|).  One obligation id per (method, absorb).
+#   memo-key     each functools.cache'd parser: argument tuples equal under == / hash (True ~ 1 ~ 1.0, False ~ 0 ~ 0.0,
+#                k ~ float(k)) give equal results of the *uncached* function (.__wrapped__).  One id per parameter.
+#   tables       _do_absorb returns a left / right factor exactly for the codes in _RETURNS_LEFT/RIGHT_ABSORBS;
+#                _ABSORB_TRANSPOSE_MAP is the form of the transposed problem; defaults of the drivers are accepted.
+
+_F = DEC + "::"
+
+
+def _ob(fn, label, status, t0, model=None, detail=None):
+    from vf.framework import ObResult
+    return ObResult(id=f"{_F}{fn}::{label}", kind="fdx", status=status, backend="exhaustive", solver_s=time.time() - t0,
+                    function=_F + fn, model=model, detail=detail, engine="fdx")
+
+
+def _clear_caches(D):
+    for f in (D.parse_method_absorb, D.parse_split_opts, D.parse_split_left_right_isom):
+        f.cache_clear()
+
+
+def _method_spellings(D):
+    return ["auto", "eig", "lq", "lq:cholesky"] + list(D._SPLIT_FNS)
+
+
+def _absorb_spellings(D):
+    return ["auto"] + list(D._ABSORB_MAP)
+
+
+def _lab(x):
+    return repr(x) if not isinstance(x, str) else x
+
+
+def _fdx_total(D, out):
+    import inspect
+    import warnings
+    import numpy as np
+
+    codes = set(D._ABSORB_MAP.values())
+    modes = set(D._CUTOFF_MODE_MAP.values())
+    x = np.zeros((2, 2))
+    pma, pso = D.parse_method_absorb.__wrapped__, D.parse_split_opts.__wrapped__
+    trunc_settings = [(None, 0.0), (None, 1e-10), (4, 0.0), (4, 1e-10), (None, None)]
+    mode_spellings = list(D._CUTOFF_MODE_MAP)
+    renorms = [None, 0, 1, 2, 3, True, False]
+    sigs = {m: inspect.signature(f) for m, f in D._SPLIT_FNS.items()}
+    ncalls = 0
+    for M in _method_spellings(D):
+        for A in _absorb_spellings(D):
+            # ---- parse_method_absorb
+            t0 = time.time()
+            bad = None
+            for tr in (True, False):
+                ncalls += 1
+                try:
+                    with warnings.catch_warnings():
+                        warnings.simplefilter("ignore")
+                        m2, a2 = pma(M, A, tr)
+                    if m2 not in D._SPLIT_FNS or a2 not in codes:
+                        bad = dict(call=f"parse_method_absorb({M!r}, {A!r}, {tr})", observed=repr((m2, a2)),
+                                   expected="a registered method and an absorb code of the table")
+                except ValueError:
+                    pass
+                except Exception as e:  # noqa
+                    bad = dict(call=f"parse_method_absorb({M!r}, {A!r}, {tr})", observed=f"{type(e).__name__}: {e}",
+                               expected="a result or a ValueError")
+            out.append(_ob("parse_method_absorb", f"total[method={M},absorb={_lab(A)}]", "failed" if bad else "discharged",
+                           t0, model=bad))
+            # ---- parse_split_opts
+            t0 = time.time()
+            bad = None
+            for (mb, co) in trunc_settings:
+                for cm in mode_spellings:
+                    for rn in renorms:
+                        ncalls += 1
+                        call = f"parse_split_opts({M!r}, {A!r}, max_bond={mb}, cutoff={co}, cutoff_mode={cm!r}, renorm={rn})"
+                        try:
+                            with warnings.catch_warnings():
+                                warnings.simplefilter("ignore")
+                                m2, opts = pso(M, A, mb, co, cm, rn)
+                        except ValueError:
+                            continue
+                        except Exception as e:  # noqa
+                            bad = bad or dict(call=call, observed=f"{type(e).__name__}: {e}", expected="a result or a ValueError")
+                            continue
+                        why = None
+                        if m2 not in D._SPLIT_FNS:
+                            why = f"method {m2!r} is not registered"
+                        else:
+                            try:
+                                sigs[m2].bind(x, **opts)
+                            except TypeError as e:
+                                why = f"options do not bind to the driver's signature: {e}"
+                            if "absorb" in opts and opts["absorb"] not in codes:
+                                why = f"absorb {opts['absorb']!r} not a code of the table"
+                            if "cutoff_mode" in opts and opts["cutoff_mode"] not in modes:
+                                why = f"cutoff_mode {opts['cutoff_mode']!r} not a code"
+                            if "renorm" in opts and not (isinstance(opts["renorm"], int) and opts["renorm"] is not True
+                                                         and opts["renorm"] >= 0):
+                                why = f"renorm {opts['renorm']!r} is not a resolved non-negative int power"
+                            if "max_bond" in opts and not isinstance(opts["max_bond"], int):
+                                why = f"max_bond {opts['max_bond']!r} not an int"
+                            if "cutoff" in opts and not isinstance(opts["cutoff"], float):
+                                why = f"cutoff {opts['cutoff']!r} not a float"
+                        if why:
+                            bad = bad or dict(call=call, observed=repr((m2, opts)), expected=why)
+            out.append(_ob("parse_split_opts", f"total[method={M},absorb={_lab(A)}]", "failed" if bad else "discharged",
+                           t0, model=bad))
+    return ncalls
+
+
+def _isometry_inputs(method, seed=7):
+    """fixed full-rank inputs in the domain of the driver: (label, array, extra options)"""
+    import numpy as np
+    rng = np.random.default_rng(seed)
+    out = []
+    for dt in ("float64", "complex128"):
+        def rnd(m, n):
+            a = rng.normal(size=(m, n))
+            if dt == "complex128":
+                a = a + 1j * rng.normal(size=(m, n))
+            return a.astype(dt)
+        if method in ("eigh", "eigsh", "cholesky"):
+            for d in (5, 4):
+                a = rnd(d, d)
+                h = a @ a.conj().T + d * np.eye(d)  # hermitian positive definite, well conditioned
+                out.append((f"hpd{d}x{d}:{dt}", h))
+        else:
+            for (m, n) in ((6, 4), (4, 6), (5, 5)):
+                out.append((f"{m}x{n}:{dt}", rnd(m, n)))
+    return out
+
+
+_LOOSE = {"svd:eig": 1e-6, "eig": 1e-6, "qr:cholesky": 1e-6, "lq:cholesky": 1e-6, "svd:rand": 1e-6, "svds": 1e-6,
+          "isvd": 1e-6, "rsvd": 1e-6, "eigsh": 1e-6}
+_ABSORB_REPR = ["auto", None, "both", "left", "right", "lorthog", "rorthog", "lfactor", "rfactor", "lsqrt", "rsqrt", "s"]
+
+
+def _iso_defect(F):
+    import numpy as np
+    F = np.asarray(F)
+    a = np.linalg.norm(F.conj().T @ F - np.eye(F.shape[1]))
+    b = np.linalg.norm(F @ F.conj().T - np.eye(F.shape[0]))
+    return float(min(a, b))
+
+
+def _fdx_isometry(D, out, methods=None):
+    import warnings
+    import numpy as np
+
+    runs = 0
+    for M in _method_spellings(D):
+        if methods is not None and M not in methods:
+            continue
+        inputs = _isometry_inputs(D.parse_method(M) if M != "eig" else "svd:eig")
+        for A in _ABSORB_REPR:
+            t0 = time.time()
+            _clear_caches(D)
+            with warnings.catch_warnings():
+                warnings.simplefilter("ignore")
+                try:
+                    li, ri = D.parse_split_left_right_isom.__wrapped__(M, A)
+                except Exception as e:  # noqa
+                    out.append(_ob("parse_split_left_right_isom", f"isometry[method={M},absorb={_lab(A)}]", "failed", t0,
+                                   model=dict(call=f"parse_split_left_right_isom({M!r}, {A!r})",
+                                              observed=f"{type(e).__name__}: {e}")))
+                    continue
+            if not (li or ri):
+                continue  # no claim
+            worst, bad, rejected, errors = 0.0, None, 0, []
+            for lab, x in inputs:
+                m, n = x.shape
+                opts = dict(max_bond=None, cutoff=0.0)
+                if M == "svd:rand":
+                    opts["max_bond"] = min(m, n)
+                if M in ("svds", "isvd", "rsvd", "eigsh"):
+                    opts["max_bond"] = 2  # static truncation (untruncated calls of the iterative drivers: finding C05-iter-none)
+                call = f"array_split(<{lab}>, method={M!r}, absorb={A!r}, max_bond={opts['max_bond']}, cutoff=0.0)"
+                runs += 1
+                try:
+                    with warnings.catch_warnings():
+                        warnings.simplefilter("ignore")
+                        L, s, Rt = D.array_split(x.copy(), method=M, absorb=A, **opts)
+                except (ValueError, NotImplementedError):
+                    rejected += 1  # combination rejected (by the parser, or by the driver: lu): no factor, claim vacuous
+                    continue
+                except Exception as e:  # noqa
+                    errors.append(f"{call}: {type(e).__name__}: {str(e)[:120]}")
+                    continue
+                tol = _LOOSE.get(M, 1e-8)
+                for flag, F, which in ((li, L, "left"), (ri, Rt, "right")):
+                    if not flag or F is None:
+                        continue
+                    dfc = _iso_defect(F)
+                    worst = max(worst, dfc)
+                    if not (dfc <= tol) and bad is None:
+                        bad = dict(replay=dict(kind="isometry", method=M, absorb=repr(A), input=lab, max_bond=opts["max_bond"],
+                                               which=which, tol=tol),
+                                   call=call, flagged=which, observed=f"isometry defect {dfc:.3g} of the {which} factor "
+                                   f"(shape {np.asarray(F).shape})", expected=f"<= {tol:g}",
+                                   flags=dict(left_isom=bool(li), right_isom=bool(ri)))
+            label = f"isometry[method={M},absorb={_lab(A)}]"
+            if bad:
+                out.append(_ob("parse_split_left_right_isom", label, "failed", t0, model=bad))
+            elif errors and rejected + len(errors) == len(inputs):
+                out.append(_ob("parse_split_left_right_isom", label, "unknown", t0, detail="; ".join(errors[:2])))
+            else:
+                out.append(_ob("parse_split_left_right_isom", label, "discharged", t0,
+                               detail=f"worst defect {worst:.2g}; rejected by the driver on {rejected}/{len(inputs)} inputs"
+                               + (f"; errors: {errors[:1]}" if errors else "")))
+    _clear_caches(D)
+    return runs
+
+
+_EQ_CLASSES = [[True, 1, 1.0], [False, 0, 0.0], [2, 2.0], [-1, -1.0], [3, 3.0], [4, 4.0], [5, 5.0], [6, 6.0], [10, 10.0],
+               [11, 11.0], [12, 12.0], [-10, -10.0], [-11, -11.0], [-12, -12.0]]
+
+
+def _key_equal_variants(v):
+    for cl in _EQ_CLASSES:
+        for w in cl:
+            if type(w) is type(v) and w == v:
+                return [u for u in cl if type(u) is not type(v)]
+    return []
+
+
+def _fdx_memo(D, out):
+    import itertools
+    import warnings
+
+    grids = {
+        "parse_method_absorb": dict(
+            method=["auto", "svd", "qr", "lq", "eigh", "polar_right", "cholesky"],
+            absorb=["auto", None, "both", "left", 0, 1, -1, 2, 10, 11, 12, -10, -11, -12],
+            truncation=[True, False, 0, 1]),
+        "parse_split_opts": dict(
+            method=["auto", "svd", "qr", "eigh", "svds"],
+            absorb=["auto", None, "left", 0, 1, -1],
+            max_bond=[None, 1, 2, -1],
+            cutoff=[0.0, 1e-10, 0, 1, 1.0, None],
+            cutoff_mode=["rsum2", "sum1", "rel", 1, 3, 4],
+            renorm=[None, 0, 1, 2, True, False, 3]),
+        "parse_split_left_right_isom": dict(
+            method=["auto", "svd", "qr", "lq", "eigh", "polar_right", "cholesky"],
+            absorb=["auto", None, "both", "left", "right", 0, 1, -1, 2, 10, 11, -11]),
+    }
+    ncalls = 0
+    for fname, grid in grids.items():
+        f = getattr(D, fname).__wrapped__
+        names = list(grid)
+        memo = {}
+
+        def run(args):
+            k = tuple((type(a).__name__, a) for a in args)
+            if k not in memo:
+                _clear_caches(D)  # the inner (cached) parser must not carry history either
+                try:
+                    with warnings.catch_warnings():
+                        warnings.simplefilter("ignore")
+                        memo[k] = ("ok", f(*args))
+                except Exception as e:  # noqa
+                    memo[k] = ("raise", type(e).__name__)
+            return memo[k]
+
+        bad = {p: None for p in names}
+        t0 = time.time()
+        for args in itertools.product(*[grid[p] for p in names]):
+            for i, p in enumerate(names):
+                for w in _key_equal_variants(args[i]):
+                    args2 = args[:i] + (w,) + args[i + 1:]
+                    assert args2 == args and hash(args2) == hash(args)
+                    ncalls += 1
+                    r1, r2 = run(args), run(args2)
+                    if r1 != r2 and bad[p] is None:
+                        bad[p] = dict(replay=dict(kind="memo", fname=fname, args=repr(args), args2=repr(args2)),
+                                      call=f"{fname}.__wrapped__{args!r}  vs  {fname}.__wrapped__{args2!r}",
+                                      observed=f"{r1!r}  !=  {r2!r}",
+                                      expected="equal results: functools.cache identifies the two argument tuples "
+                                               "(they are == and hash-equal), so the cached result depends on call history")
+        for p in names:
+            out.append(_ob(fname, f"memo-key[param={p}]", "failed" if bad[p] else "discharged", t0, model=bad[p]))
+    _clear_caches(D)
+    return ncalls
+
+
+def _fdx_tables(D, out):
+    import numpy as np
+    rng = np.random.default_rng(3)
+    U, _ = np.linalg.qr(rng.normal(size=(5, 3)))
+    V, _ = np.linalg.qr(rng.normal(size=(4, 3)))
+    VH = V.T
+    s = np.array([3.0, 2.0, 0.5])
+    codes = sorted(set(D._ABSORB_MAP.values()), key=lambda c: (c is None, c))
+    for c in codes:
+        t0 = time.time()
+        L, sv, Rt = D._do_absorb(U, s, VH, c)
+        bad = None
+        if (L is not None) != (c in D._RETURNS_LEFT_ABSORBS) or (Rt is not None) != (c in D._RETURNS_RIGHT_ABSORBS):
+            bad = dict(call=f"_do_absorb(U, s, VH, {c!r})", observed=f"left returned: {L is not None}, right returned: {Rt is not None}",
+                       expected=f"left iff code in _RETURNS_LEFT_ABSORBS ({c in D._RETURNS_LEFT_ABSORBS}), right iff in "
+                                f"_RETURNS_RIGHT_ABSORBS ({c in D._RETURNS_RIGHT_ABSORBS})")
+        out.append(_ob("_do_absorb", f"returns-table[absorb={c!r}]", "failed" if bad else "discharged", t0, model=bad))
+        # transposed problem: x^T = VH^T diag(s) U^T; the form of the transposed problem, transposed back, is the form itself
+        t0 = time.time()
+        ct = D._ABSORB_TRANSPOSE_MAP[c]
+        Lt, st, Rtt = D._do_absorb(VH.T, s, U.T, ct)
+        same = all((p is None and q is None) or (p is not None and q is not None and np.allclose(p, q))
+                   for p, q in ((L, None if Rtt is None else Rtt.T), (Rt, None if Lt is None else Lt.T), (sv, st)))
+        out.append(_ob("_do_absorb", f"transpose-table[absorb={c!r}]", "discharged" if same else "failed", t0,
+                       model=None if same else dict(call=f"_ABSORB_TRANSPOSE_MAP[{c!r}] = {ct!r}",
+                                                    observed="the transposed form of the transposed problem differs")))
+    # numba twin agrees with the generic one on the whole table
+    f = getattr(D._do_absorb_numba, "py_func", D._do_absorb_numba)
+    for c in codes:
+        t0 = time.time()
+        g, h = D._do_absorb(U, s, VH, c), f(U, s, VH, c)
+        same = all((p is None and q is None) or (p is not None and q is not None and np.allclose(p, q)) for p, q in zip(g, h))
+        out.append(_ob("_do_absorb_numba", f"agrees-with-generic[absorb={c!r}]", "discharged" if same else "failed", t0,
+                       model=None if same else dict(call=f"_do_absorb_numba.py_func(U, s, VH, {c!r})", observed="differs from _do_absorb")))
+
+
+def provider_on(D, isometry_methods=None):
+    """all fdx obligations evaluated on the module object D (quimb.tensor.decomp, or a mutated copy at selftest)"""
+    out = []
+    _clear_caches(D)
+    _fdx_total(D, out)
+    _fdx_memo(D, out)
+    _fdx_tables(D, out)
+    _fdx_isometry(D, out, isometry_methods)
+    _clear_caches(D)
+    return out
+
+
+def provider(tier="quick"):
+    """fdx provider of C05: finite-domain exhaustive execution of the real option parsers"""
+    import quimb.tensor.decomp as D
+    return provider_on(D)
+
+
+def _replay_fdx(model):
+    """native replay of a failed provider obligation: re-execute the recorded call on the real functions"""
+    import warnings
+    import quimb.tensor.decomp as D
+    r = (model or {}).get("replay") or {}
+    with warnings.catch_warnings():
+        warnings.simplefilter("ignore")
+        if r.get("kind") == "memo":
+            f = getattr(D, r["fname"])
+            a1, a2 = eval(r["args"]), eval(r["args2"])  # literals written by the provider itself
+            _clear_caches(D)
+            u1 = f.__wrapped__(*a1)
+            _clear_caches(D)
+            u2 = f.__wrapped__(*a2)
+            # and the observable consequence through the cached entry point: the second call inherits the first result
+            _clear_caches(D)
+            c1 = f(*a1)
+            c2 = f(*a2)
+            _clear_caches(D)
+            return dict(call=f"{r['fname']}{a1!r} then {r['fname']}{a2!r} (keys equal: {a1 == a2 and hash(a1) == hash(a2)})",
+                        observed=dict(uncached_first=repr(u1), uncached_second=repr(u2), cached_second_after_first=repr(c2)),
+                        reproduced=bool(u1 != u2 and c2 == c1 and c2 != u2))
+        if r.get("kind") == "isometry":
+            M, A = r["method"], eval(r["absorb"])
+            x = dict(_isometry_inputs(D.parse_method(M) if M != "eig" else "svd:eig"))[r["input"]]
+            _clear_caches(D)
+            li, ri = D.parse_split_left_right_isom(M, A)
+            L, s_, Rt = D.array_split(x.copy(), method=M, absorb=A, max_bond=r["max_bond"], cutoff=0.0)
+            F = L if r["which"] == "left" else Rt
+            dfc = _iso_defect(F)
+            _clear_caches(D)
+            return dict(call=f"parse_split_left_right_isom({M!r}, {A!r}) -> {(li, ri)}; array_split(<{r['input']}>, method={M!r}, "
+                             f"absorb={A!r}, max_bond={r['max_bond']}, cutoff=0.0)",
+                        observed=f"{r['which']} factor flagged isometric has isometry defect {dfc:.3g}",
+                        reproduced=bool((li if r["which"] == "left" else ri) and dfc > r["tol"]))
+    return dict(call="?", observed="no replay information in the model", reproduced=False)
+
+
+class _ReplayOnly(Contract):
+    """registry entries for the functions decided by the fdx provider: they only carry the native replay of a failed
+    provider obligation (these functions have no E1 obligations: they are executed, not symbolically evaluated)"""
+    property_ids = ("C05",)
+
+    def inputs(self, cx, case):
+        raise Unsupported("decided by the fdx provider (executed on its finite domain), not by symbolic execution")
+
+    def replay(self, model):
+        return _replay_fdx(model)
+
+
+for _fn in ("parse_method_absorb", "parse_split_opts", "parse_split_left_right_isom"):
+    _stub = _ReplayOnly()
+    _stub.target = _F + _fn
+    P.REGISTRY[_stub.target] = _stub
